@@ -29,6 +29,18 @@ def comodo_dataset(spec, rng, extra_vars=True):
     items = list(coords.items())
     rng.shuffle(items)
     ds = xr.Dataset(coords=dict(items))
+    # coordinates that are not dimensions may carry an axis attribute too (a 2-D longitude tagged axis="X"; the scalar left
+    # behind by selecting one level of a staggered coordinate): positions are dimensions, so these never take part
+    axes = list(spec)
+    if rng.random() < 0.3:
+        a = rng.choice(axes)
+        ds = ds.assign_coords({"scalar_level_" + str(a): ((), 2.5, {"axis": a, "c_grid_axis_shift": rng.choice([-0.5, 0.5])})})
+    if rng.random() < 0.3:
+        a = rng.choice(axes)
+        dims2 = [ax["pos"]["center"] for ax in spec.values() if "center" in ax["pos"]][:2]
+        if dims2:
+            shp = [ds.sizes[d] for d in dims2]
+            ds = ds.assign_coords({"geo_" + str(a): (tuple(dims2), np.arange(int(np.prod(shp)), dtype=float).reshape(shp), {"axis": a})})
     return ds
 
 
